@@ -788,6 +788,7 @@ where
             _ => SessionStopReason::Ended,
         };
         self.session.set_session_stop_reason(session_stop_reason);
+        self.session.fail_unsettled_deliveries();
         let _ =
             connection::deallocate_session(&mut self.conn_control, self.session.outgoing_channel())
                 .await;
